@@ -846,7 +846,7 @@ func (self *LockDB) checkMillisecondTimeOut(ms int64, glockIndex uint16) {
 		nodeQueues := lockQueue.IterNodeQueues(int32(i))
 		for j, lock := range nodeQueues {
 			if !lock.timeouted {
-				lock.timeoutTime = lock.startTime + int64(lock.command.Timeout/1000) + 1
+				lock.timeoutTime = lock.startTime + (int64(lock.command.Timeout)+999)/1000 + 1
 				if lock.command.Timeout >= MILLISECOND_QUEUE_LENGTH {
 					self.AddTimeOut(lock)
 					nodeQueues[j] = nil
@@ -1107,7 +1107,7 @@ func (self *LockDB) checkMillisecondExpried(ms int64, glockIndex uint16) {
 		nodeQueues := lockQueue.IterNodeQueues(int32(i))
 		for j, lock := range nodeQueues {
 			if !lock.expried {
-				lock.expriedTime = lock.startTime + int64(lock.command.Expried/1000) + 1
+				lock.expriedTime = lock.startTime + (int64(lock.command.Expried)+999)/1000 + 1
 				if lock.command.Expried >= MILLISECOND_QUEUE_LENGTH {
 					self.AddExpried(lock)
 					nodeQueues[j] = nil
@@ -2843,7 +2843,7 @@ func (self *LockDB) DoAckLock(lock *Lock, succed bool) {
 				lock.expriedTime = lock.startTime + int64(lock.command.Expried) + 1
 			}
 		} else {
-			lock.expriedTime = lock.startTime + int64(lock.command.Expried)/1000 + 1
+			lock.expriedTime = lock.startTime + (int64(lock.command.Expried)+999)/1000 + 1
 		}
 
 		var lockData []byte = nil
